@@ -258,6 +258,7 @@ pub fn unary_spec(s0: &S0, s: &Snap, a: &CallLog, r_ok: bool, zst: bool) -> [boo
     }
     v
 }
+#[allow(unused_macros)]
 macro_rules! unary_asserts {
     ($n:literal, $v:expr, $s:expr, $s0:expr, $a:expr, $zst:expr) => {
         vassert!($v[0], concat!("C01/", $n, ".child-runs-once-from-entry-state"));
